@@ -724,11 +724,44 @@ def _quoted_hole(js) -> bool:
     return len(parts) == 3 and parts[0] == '"' and parts[2] == '"' and isinstance(parts[1], ast.Call) and call_name(parts[1]) in ("quoted",)
 
 
+def r7_11(ctx):
+    """The two forms of a multipart body structure - BODY (no extension data) and BODYSTRUCTURE - are built in the same
+    function from the same pieces and differ only in what follows the subtype.  body-type-mpart = 1*body SP media-subtype:
+    in both concatenations the piece in front of the subtype is SP DQUOTE (sibling agreement of the two return forms)."""
+    p = ctx.p
+    fi = p.func("fetch.FetchAtt.bodystructure")
+    ctx.analysed(fi)
+
+    def flat(e):
+        if isinstance(e, ast.BinOp) and isinstance(e.op, ast.Add):
+            return flat(e.left) + flat(e.right)
+        return [e]
+
+    chains = []
+    for n in body_walk(fi.node):
+        if isinstance(n, ast.BinOp) and isinstance(n.op, ast.Add):
+            parts = flat(n)
+            if any(isinstance(x, ast.Name) and x.id == "subtype" for x in parts) and any("sub_parts" in norm(x) for x in parts):
+                if not any(n is not m and isinstance(m, ast.BinOp) and n in ast.walk(m) for m in [c for c, _ in chains]):
+                    chains.append((n, parts))
+    # keep outermost chains only
+    outer = [(n, ps) for n, ps in chains if not any(n is not m and any(x is n for x in ast.walk(m)) for m, _ in chains)]
+    ctx.floor("R7.11", len(outer), 2, "multipart body structure forms")
+    for n, parts in outer:
+        i = next(k for k, x in enumerate(parts) if isinstance(x, ast.Name) and x.id == "subtype")
+        before = parts[i - 1] if i else None
+        if isinstance(before, ast.Constant) and before.value in (b' "', ' "'):
+            ctx.ok("R7.11", where(fi), f"multipart form @{n.lineno}: parts SP DQUOTE subtype")
+        else:
+            ctx.bad("R7.11", fi.module, fi.qual, norm(n, 90), f"the multipart subtype follows the parts without a space (`{norm(before, 20) if before is not None else '?'}` in front of it): `(...)(...)\"MIXED\"` is not a body-type-mpart", n.lineno)
+
+
 def _run_extra(ctx):
     ctx.do(r7_4b)
     ctx.do(r7_8)
     ctx.do(r7_9)
     ctx.do(r7_10)
+    ctx.do(r7_11)
 
 
 def run(ctx):
